@@ -144,6 +144,17 @@ pub fn run_c01(rep: &mut Report, thorough: bool, replay: Option<&str>) {
                 ci += 1;
                 let knobs = OptKnobs::from_bits(bits, &mut rng);
                 let mut o = scen::random_opts(&mut rng, &sc, &knobs);
+                // every target: crash contexts whose instruction pointer sits 1 / 16 / 127 / 128 bytes
+                // before the end of the readable part of a file mapping with an inaccessible tail
+                if let Some(c) = o.crash.as_mut() {
+                    if j % 4 == 1 {
+                        if let Some(r) = sc.b.spec.regions.iter().find(|r| r.prot == 5 && matches!(&r.kind, crate::spec::RegionKind::File { path, .. } if path.ends_with("exec-with-noaccess-tail.bin"))) {
+                            let back = [1u64, 16, 127, 128][(j / 4) % 4];
+                            c.gregs[crate::dump::REG_RIP] = (r.addr + r.len - back) as i64;
+                            rep.count("crash_ip_next_to_inaccessible_tail", 1);
+                        }
+                    }
+                }
                 // unreadable names for a random subset of threads
                 if rng.chance(1, 2) {
                     let mut tids = sc.target.manifest.tids.clone();
